@@ -17,11 +17,11 @@ open KV KV.Reader KV.ConnOps
 def brokersV1 : Step := .arr [.int 4, .str, .int 4, .str]                    -- node_id host port rack
 def partitionV1 : List Step := [.err, .int 4, .int 4, .arr [.int 4], .arr [.int 4]]
 def fetchPartitionV4 : List Step :=                                           -- v4..v10 with log_start_offset (v5+)
-  [.int 4, .err, .hwm, .int 8, .int 8, .arr [.int 8, .int 8], .bytes]
+  [.int 4, .err, .hwm, .int 8, .int 8, .abortedTxs, .bytes]     -- aborted_transactions: −1 = null, n ≥ 0 entries of 16 bytes
 
 /-- `layout api version` for the operation names of the driver / Model.ConnSpecs -/
 def layout : String → Nat → Option (List Step)
-  | "apiVersions", 0 => some [.err, .arr [.int 2, .int 2, .int 2]]
+  | "apiVersions", 0 => some [.err, .arrB 6 [.int 2, .int 2, .int 2]]      -- a non-nullable array of 6-byte entries
   | "listOffsets", 1 => some [.arr [.str, .arr [.int 4, .err, .int 8, .int 8]]]
   | "metadata", 1 | "brokers", 1 | "controller", 1 =>
     some [brokersV1, .int 4, .arr ([.err, .str, .int 1, .arr partitionV1])]
@@ -71,6 +71,7 @@ def renderStep (v : Nat) : Step → List Nat
   | .discBytes => [6]
   | .disc n => [7, n]
   | .arr body => [10] ++ renderSteps v body ++ [11]
+  | .arrB e body => [15, e] ++ renderSteps v body ++ [11]
   | .ifGe w body => if v ≥ w then renderSteps v body else []
   | .failIfErr => [12]
   | .expect1 => [13]
